@@ -153,10 +153,15 @@ theorem applyPacks_invalid (info : CompId → CompInfo) (w : WM) (ps : List (Lis
 
 /-! ## `destroy`: the handle is parked in `marked`, `update` drops it -/
 
-/-- unlocked `destroy` changes `marked` only — for every handle -/
-theorem destroy_marks_only (w : WM) (t : Nat) (h : Handle) (hl : w.isLocked = false) :
+/-- unlocked `destroy` of a live entity changes `marked` only -/
+theorem destroy_marks_only (w : WM) (t : Nat) (h : Handle) (hl : w.isLocked = false) (hv : w.isValid h = true) :
     w.destroy t h = { w with marked := insertSorted w.marked h } := by
-  simp [WM.destroy, hl]
+  simp [WM.destroy, hl, hv]
+
+/-- unlocked `destroy` through a handle that is not alive (null, stale, foreign, never issued) does nothing at all -/
+theorem destroy_invalid_noop (w : WM) (t : Nat) (h : Handle) (hl : w.isLocked = false) (hv : w.isValid h = false) :
+    w.destroy t h = w := by
+  simp [WM.destroy, hl, hv]
 
 /-- the observable state does not depend on `marked` -/
 theorem marked_unobservable (w : WM) (m : List Handle) (e : Handle) (c : CompId) :
@@ -278,18 +283,13 @@ theorem destroy_invalid_dropped_by_update_ids (info : CompId → CompInfo) (w : 
 /-- `destroy stale; update` on a state with an empty pending set = `update` alone: nothing at all
 happened to the world -/
 theorem destroy_invalid_then_update (info : CompId → CompInfo) (w : WM) (t : Nat) (h : Handle)
-    (hl : w.isLocked = false) (hm : w.marked = []) (hv : w.isValid h = false) :
+    (hl : w.isLocked = false) (hv : w.isValid h = false) :
     (w.destroy t h).update info = w.update info := by
-  rw [destroy_marks_only w t h hl, hm]
-  have := destroy_invalid_dropped_by_update_ids info { w with marked := [h] } [] [] h hl rfl hv
-    (fun _ hx => by cases hx)
-  rw [show insertSorted [] h = [h] from rfl, this]
-  simp only [List.append_nil]
-  rw [show ({ ({ w with marked := [h] } : WM) with marked := [] } : WM) = w from by rw [← hm]]
+  rw [destroy_invalid_noop w t h hl hv]
 
 example : sampleW.marked = [] ∧ sampleW.isValid stale = false := by decide
 
-example : (sampleW.destroy 0 stale).marked = [stale] := by decide
+example : (sampleW.destroy 0 stale).marked = [] := by decide
 example : ((sampleW.destroy 0 stale).update cat).1.archs.map (·.rows.length) = [0, 0, 1] := by decide
 
 end Mustache.Props.C09
